@@ -30,15 +30,15 @@ import (
 )
 
 type TierCfg struct {
-	Params     map[string]int `json:"params"`
-	TimeoutS   int            `json:"timeout_s"`
-	MaxPaths   int            `json:"max_paths"`
-	QueryMs    int            `json:"query_ms"`
-	Skip       bool           `json:"skip"`
-	MaxSteps   int64          `json:"max_steps"`
-	Unwind     int            `json:"unwind"`
-	MaxConc    int            `json:"max_conc"`
-	Switches   int            `json:"max_switches"`
+	Params   map[string]int `json:"params"`
+	TimeoutS int            `json:"timeout_s"`
+	MaxPaths int            `json:"max_paths"`
+	QueryMs  int            `json:"query_ms"`
+	Skip     bool           `json:"skip"`
+	MaxSteps int64          `json:"max_steps"`
+	Unwind   int            `json:"unwind"`
+	MaxConc  int            `json:"max_conc"`
+	Switches int            `json:"max_switches"`
 }
 
 type Rename struct {
@@ -56,27 +56,27 @@ type Rewrite struct {
 }
 
 type Oblig struct {
-	ID       string             `json:"id"`
-	Property string             `json:"property"`
-	Dir      string             `json:"dir"`     // repo-relative package dir ("" = root)
-	Harness  []string           `json:"harness"` // files under /verif/harness
-	Entry    string             `json:"entry"`
-	Roots    []string           `json:"roots"`
-	Unwind   int                `json:"unwind"`
-	Native   bool               `json:"native"` // harness can be replayed natively (no engine-only models)
-	Race     bool               `json:"race_check"` // happens-before race detection on heap cells and maps
-	Sched    bool               `json:"sched"`  // schedule-dependent: a native run is best-effort (the Go scheduler picks the interleaving)
-	Renames  []Rename           `json:"renames"`
-	Rewrites []Rewrite          `json:"rewrites"`
-	Tiers    map[string]TierCfg `json:"tiers"`
-	Alt      string             `json:"alt_solver"` // e.g. cvc5-bvint for arithmetic-heavy obligations
-	Solver   string             `json:"solver"`     // main back end (default z3); e.g. "cvc5" for comparison-chain heavy obligations
-	Kind     string             `json:"kind"`       // "" (symbolic exploration) | "locksmt" (lock traces + SMT interleaving check)
-	ReplayEntry string          `json:"replay_entry"`
-	Expect   string             `json:"expect"`     // "" | "reach" (a twin whose violation is expected)
-	Desc     string             `json:"desc"`
-	Bounds   string             `json:"bounds"`
-	Assumes  []string           `json:"assumes"`
+	ID          string             `json:"id"`
+	Property    string             `json:"property"`
+	Dir         string             `json:"dir"`     // repo-relative package dir ("" = root)
+	Harness     []string           `json:"harness"` // files under /verif/harness
+	Entry       string             `json:"entry"`
+	Roots       []string           `json:"roots"`
+	Unwind      int                `json:"unwind"`
+	Native      bool               `json:"native"`     // harness can be replayed natively (no engine-only models)
+	Race        bool               `json:"race_check"` // happens-before race detection on heap cells and maps
+	Sched       bool               `json:"sched"`      // schedule-dependent: a native run is best-effort (the Go scheduler picks the interleaving)
+	Renames     []Rename           `json:"renames"`
+	Rewrites    []Rewrite          `json:"rewrites"`
+	Tiers       map[string]TierCfg `json:"tiers"`
+	Alt         string             `json:"alt_solver"` // e.g. cvc5-bvint for arithmetic-heavy obligations
+	Solver      string             `json:"solver"`     // main back end (default z3); e.g. "cvc5" for comparison-chain heavy obligations
+	Kind        string             `json:"kind"`       // "" (symbolic exploration) | "locksmt" (lock traces + SMT interleaving check)
+	ReplayEntry string             `json:"replay_entry"`
+	Expect      string             `json:"expect"` // "" | "reach" (a twin whose violation is expected)
+	Desc        string             `json:"desc"`
+	Bounds      string             `json:"bounds"`
+	Assumes     []string           `json:"assumes"`
 }
 
 type Registry struct {
@@ -905,7 +905,11 @@ func nativeReplay(o *Oblig, replayPath string, deadlock bool) (bool, string) {
 	if deadlock {
 		to = "15s"
 	}
-	cmd := exec.Command("go", "test", "-tags=verif", "-vet=off", "-count=1", "-run", "^TestVerifReplay$", "-overlay", ovp, "-timeout", to, "-v", pkgPathOf(o))
+	mf := symgo.ScratchModfile(repoDir)
+	if mf != "" {
+		defer os.RemoveAll(filepath.Dir(mf))
+	}
+	cmd := exec.Command("go", "test", "-tags=verif", "-vet=off", "-count=1", "-run", "^TestVerifReplay$", "-modfile="+mf, "-overlay", ovp, "-timeout", to, "-v", pkgPathOf(o))
 	cmd.Dir = repoDir
 	cmd.Env = append(os.Environ(), "GOFLAGS=-mod=mod", "GOPROXY=off", "GOSUMDB=off", "GOTOOLCHAIN=local", "VERIF_REPLAY="+replayPath)
 	outp, _ := cmd.CombinedOutput()
@@ -954,7 +958,11 @@ func validateVectors(o *Oblig, prog *symgo.Program, solver *symgo.Solver, lim sy
 	ovj, _ := json.Marshal(map[string]interface{}{"Replace": repl})
 	ovp := filepath.Join(tmp, "overlay.json")
 	os.WriteFile(ovp, ovj, 0o644)
-	cmd := exec.Command("go", "test", "-tags=verif", "-vet=off", "-count=1", "-run", "^TestVerifVectors$", "-overlay", ovp, "-timeout", "300s", "-v", pkgPathOf(o))
+	mf := symgo.ScratchModfile(repoDir)
+	if mf != "" {
+		defer os.RemoveAll(filepath.Dir(mf))
+	}
+	cmd := exec.Command("go", "test", "-tags=verif", "-vet=off", "-count=1", "-run", "^TestVerifVectors$", "-modfile="+mf, "-overlay", ovp, "-timeout", "300s", "-v", pkgPathOf(o))
 	cmd.Dir = repoDir
 	cmd.Env = append(os.Environ(), "GOFLAGS=-mod=mod", "GOPROXY=off", "GOSUMDB=off", "GOTOOLCHAIN=local", "VERIF_VECTORS="+vp)
 	outp, _ := cmd.CombinedOutput()
